@@ -402,7 +402,7 @@ func cmdMeta(args []string) *Result {
 		}
 	}
 
-	markers := []string{"-", "+", "*", "1.", "1)", "12.", "007)"}
+	markers := []string{"-", "+", "*", "1.", "1)", "12.", "007)", "123456789.", "999999999)"}
 	pads := [][]byte{[]byte("\n"), []byte(" \n"), []byte("\n\t\n"), []byte("\r\n"), []byte("\r"), []byte("  \n\n")}
 
 	if args[0] == "regen" {
@@ -465,6 +465,9 @@ func cmdMeta(args []string) *Result {
 					for j := 0; j < 4; j++ {
 						doC09(x, "list", markers[(k+j*3)%len(markers)], 1+(k+j)%4)
 					}
+					// the widest marker with the widest padding (content column 14) and with the narrowest
+					doC09(x, "list", markers[7+k%2], 4-3*(k%2))
+					doC09(x, "list", markers[8-k%2], 4)
 				}
 			}
 		}
